@@ -1171,6 +1171,21 @@ def _already_decorated_with_invariants(func: CallableT) -> bool:
     return already_decorated
 
 
+def _pass_on_to_next_in_mro(
+    cls: type, name: str, slot_wrapper: Callable[..., Any]
+) -> Callable[..., Any]:
+    """Create the method ``name`` for ``cls`` which calls the next definition in the method resolution order."""
+
+    def pass_on(self, *args, **kwargs):  # type: ignore
+        return getattr(super(cls, self), name)(*args, **kwargs)
+
+    pass_on.__name__ = name
+    pass_on.__qualname__ = "{}.{}".format(cls.__qualname__, name)
+    pass_on.__doc__ = slot_wrapper.__doc__
+
+    return pass_on
+
+
 def add_invariant_checks(cls: ClassT) -> None:
     """Decorate each of the class functions with invariant checks if not already decorated."""
     # Candidates for the decoration as list of (name, dir() value)
@@ -1293,6 +1308,13 @@ def add_invariant_checks(cls: ClassT) -> None:
     # resolution order (*e.g.*, the overriding method of the other branch of a diamond hierarchy).
 
     for name, func in names_funcs:
+        if isinstance(func, _SLOT_WRAPPER_TYPE) and name not in cls.__dict__:
+            # The class does not define the special method itself. A wrapper around the slot wrapper
+            # (*e.g.*, around ``object.__setattr__``) would bind the method statically and thus hide the definitions
+            # of the classes further along the method resolution order of a sub-class
+            # (*e.g.*, ``__setattr__`` of a second base class). We give the class a method which passes the call on.
+            func = _pass_on_to_next_in_mro(cls=cls, name=name, slot_wrapper=func)
+
         wrapper = _decorate_with_invariants(func=func, is_init=False)
         if wrapper is not func or name in cls.__dict__:
             setattr(cls, name, wrapper)
